@@ -398,6 +398,8 @@ func init() {
 									l = append(append(append([]byte{0x51}, gen.Push(pk)...), gen.Push(pk)...), 0x52, 0xae, 0x91)
 								}
 							}
+							// the locking script may go on behind the check: a top-level OP_RETURN and a few raw bytes (part of the script code)
+							l = append(l, [][]byte{nil, {0x6a, 0x01}, {0x6a, 0x4b}, {0x6a, 0x05, 0x01}, {0x6a}, {0x6a, 0x42, 0x43}}[(ht+int(shape)+fi)%6]...)
 							judge(c, &c07Input{Unlock: u, Lock: l, Flags: fl, Mode: "tx", Dbg: []string{"none", "recording"}[(ht+fi)%2],
 								Ctx: progCtx{HasTx: true, Version: 1, Sequence: 0xffffffff, Sats: shape}, Src: "hash-type-sweep"})
 						}
